@@ -303,7 +303,7 @@ func Run(c *fw.Ctx) {
 					return
 				}
 				i := queue[q]
-				e := &explorer{c: c, idx: i, in: ins[i]}
+				e := &explorer{c: c, idx: i, in: ins[i], slot: slot}
 				var st stats
 				t0 := time.Now()
 				bi := b
